@@ -24,6 +24,7 @@ type decOut struct {
 	Files    []string // canonical Files ("nil" entries for absent ones)
 	G        string   // model only: accumulator state after the call
 	Quirks   []int    // model only: quirk tags raised
+	Raw      []*fit.File `json:"-"` // implementation only: the Files returned
 }
 
 func (o decOut) observable() string {
@@ -91,6 +92,7 @@ func implDecode(entry string, o optSet, rs readerSpec) (out decOut) {
 			f, err := fit.Decode(rd, o.options()...)
 			res.ErrClass = errClass(err)
 			res.Files = []string{canonFile(f)}
+			res.Raw = []*fit.File{f}
 			res.Hdr = "-"
 			if err != nil {
 				res.ErrText = err.Error()
@@ -101,6 +103,7 @@ func implDecode(entry string, o optSet, rs readerSpec) (out decOut) {
 			for _, f := range fs {
 				res.Files = append(res.Files, canonFile(f))
 			}
+			res.Raw = fs
 			res.Hdr = "-"
 			if err != nil {
 				res.ErrText = err.Error()
